@@ -357,6 +357,21 @@ def read_worker(seeds):
                                         "workbook": minimise_to_sheet(sheets, d), "style": style, "format": label, "seed": seed})
             pending.append((sheets, m["texts"], got_by, seed))
             styles.append(style)
+            # the same PATHS written again with another workbook (one process, as a long-running conversion job
+            # does): what a reader returns is what the file holds now, never what the path held before
+            if out["n"] % 2 == 0:
+                reuse = os.path.join(tmp, "reuse")
+                shutil.rmtree(reuse, ignore_errors=True)
+                m2 = materialise(reuse, sheets, style)
+                count("paths_rewritten_and_read_again")
+                for label in FORMATS:
+                    fmt, path = m2["paths"][label]
+                    got = {"__exc__": path} if fmt == "__exc__" else read_sheets(fmt, path)
+                    d = first_diff(exp, got)
+                    if d is not None and len(out["viol"]) < 10:
+                        out["viol"].append({"what": f"{label}: a path rewritten with another workbook is read as something else than what it holds now",
+                                            "diff": d, "workbook": minimise_to_sheet(sheets, d), "style": style, "format": label, "seed": seed,
+                                            "history": "the same paths held the workbook of an earlier case of this shard (seeds %s)" % [x[3] for x in pending[:-1]][-2:]})
         # B: the model on every sheet
         reqs, owners = [], []
         for wi, (sheets, texts, got_by, seed) in enumerate(pending):
